@@ -24,6 +24,12 @@ Theorem C20_ranges_refused : forall fuel fetch b e, e < b -> calc_ranges_fx fuel
 Proof. exact ranges_refused_fx. Qed.
 Print Assumptions C20_ranges_refused.
 
+(** what SyncCFTBlocks emits when every range request is answered with its blocks: every height of
+    [begin..end] exactly once, ascending *)
+Theorem C20_sync_covers_once : forall rs b e, Ranges.chain b e rs -> covers_once b e (sync_emit rs).
+Proof. exact sync_emit_interval. Qed.
+Print Assumptions C20_sync_covers_once.
+
 (** the loop as it was: partition only under the guard end + fetch < 2^64 ... *)
 Theorem C20_ranges_partition_old_guarded : forall fetch b e,
   0 < fetch -> b <= e -> e + fetch < W64 ->
